@@ -348,6 +348,38 @@ pub mod data_inst_opt {
     }
 }
 
+pub mod data_typed_option_type {
+    use super::*;
+    pub struct Contract;
+
+    #[contract]
+    #[sv::features(replies)]
+    impl Contract {
+        pub fn new() -> Self { Self }
+        #[sv::msg(instantiate)]
+        fn instantiate(&self, _ctx: InstantiateCtx) -> StdResult<Response> { Ok(Response::new()) }
+        #[sv::msg(reply, handlers=[done], reply_on=success)]
+        fn on_done(&self, _ctx: ReplyCtx, #[sv::data] data: Option<Data>, first: Payload) -> StdResult<Response> { Ok(Response::new()) }
+    }
+}
+
+pub mod data_typed_option_type_se {
+    use super::*;
+    pub struct Contract;
+
+    #[contract]
+    #[sv::features(replies)]
+    impl Contract {
+        pub fn new() -> Self { Self }
+        #[sv::msg(instantiate)]
+        fn instantiate(&self, _ctx: InstantiateCtx) -> StdResult<Response> { Ok(Response::new()) }
+        #[sv::msg(reply, handlers=[done], reply_on=success)]
+        fn on_done(&self, _ctx: ReplyCtx, #[sv::data] data: Option<Data>, first: Payload) -> StdResult<Response> { Ok(Response::new()) }
+        #[sv::msg(reply, handlers=[done], reply_on=error)]
+        fn on_fail(&self, _ctx: ReplyCtx, error: String, first: Payload) -> StdResult<Response> { Ok(Response::new()) }
+    }
+}
+
 pub mod generic_se {
     use super::*;
     pub struct Contract<T> { _p: std::marker::PhantomData<T> }
